@@ -76,7 +76,7 @@ DoCall(c) ==
     [] op = "Spawn"        -> Spawn(c, Ev.c2, Ev.kind)
     [] op = "AddDests"     -> AddDests(c, ToSet(Ev.S))
     [] op = "RemoveDest"   -> RemoveDest(c, Ev.d)
-    [] op = "AddGlobal"    -> AddGlobal(c, Ev.f)
+    [] op = "AddGlobal"    -> AddGlobal(c, Ev.f, Ev.v)
     [] OTHER -> FALSE
 WellFormedCall(c) ==
   LET op == Ev.op IN
@@ -95,7 +95,7 @@ WellFormedCall(c) ==
        [] op = "Spawn" -> ~born[Ev.c2]
        [] op = "AddDests" -> ToSet(Ev.S) # {} /\ ToSet(Ev.S) \cap Range(dests) = {}
        [] op = "RemoveDest" -> Ev.d \in Range(dests)
-       [] op = "AddGlobal" -> Ev.f \notin gf
+       [] op = "AddGlobal" -> <<Ev.f, Ev.v>> \notin gf
        [] op = "Register" -> Ev.k \notin reg
        [] OTHER -> TRUE
 TCall ==
